@@ -1431,7 +1431,7 @@ class ASTColumnTypeExpression(ASTBase):
         if sql_type == SQLType.HIVE and self.name.upper() not in {"DECIMAL", "VARCHAR", "CHAR"}:
             return self.name
         # MySQL 标准导出逗号间没有空格
-        type_params = "(" + ",".join([param.source(sql_type) for param in self.params]) + ")"
+        type_params = "(" + ",".join([source_with_parenthesis(param, sql_type, 8) for param in self.params]) + ")"
         return f"{self.name}{type_params}"
 
 
